@@ -92,6 +92,7 @@ for name in names:
             continue
         r = subprocess.run(['/venv/bin/python', '-m', 'pytest', '-q', '-p', 'no:cacheprovider'], capture_output=True, text=True)
         suite = (r.stdout.strip().splitlines() or ['?'])[-1]
+        subprocess.run(['pkill', '-f', os.path.join(D, 'supp', 'server.py')])
         if re.search(r'\d+ (failed|error)', suite):
             print('%-40s SKIP: not behaviour-preserving (suite: %s)' % (name, suite))
             continue
